@@ -46,9 +46,11 @@ def main():
     old = json.load(open(rf)) if os.path.exists(rf) else {}
     head = subprocess.run(["git", "-C", HERE, "rev-parse", "--short", "HEAD"], capture_output=True, text=True).stdout.strip()
     for pid, r in res.items():
+        keep = {k: v for k, v in (old.get(pid) or {}).items() if k in ("history", "first_run")}   # what earlier runs taught stays with the seed
         old[pid] = {"verif_commit": head, "cmd": "lib/seedtest.py %s %s  (= git apply patch.diff on a scratch worktree of /repo HEAD, ./check %s quick with VERIF_REPO)" % (os.path.relpath(d, HERE), pid, pid),
                     "exit": r["exit"], "reported": [l for l in r["lines"]], "detected": r["exit"] == 1 and any(l.startswith("VIOLATION") for l in r["lines"]),
                     "replay_excerpt": r.get("replay_excerpt")}
+        old[pid].update(keep)
     json.dump(old, open(rf, "w"), indent=1)
     return res
 
